@@ -138,7 +138,7 @@ def _optset():
 
 def _strategy(n):
     def f():
-        return st.tuples(st.one_of(gp.programs(), gp.programs(evidence_bias=True)),
+        return st.tuples(st.one_of(gp.programs(), gp.programs(evidence_bias=True), gp.programs(negdef_bias=True, max_preds=3)),
                          st.lists(_optset(), min_size=n, max_size=n)).map(
             lambda t: {"prog": t[0], "optsets": t[1]})
     return f
